@@ -32,7 +32,7 @@ CFG = {
         "Swat4.C11.C11_from",
         "Swat4.C11.driver_write_refines",
     ],
-    "shards": (1, 16),
+    "shards": (4, 16),
     "nontrivial": _c11_nontrivial,
     "rule": "random sequential call histories of 1..60 (thorough 1..300) items over 4 addresses on the real servers repository: "
             "add/update/remove with stale / current / future caller versions, all 512 status words, refresh times incl. zero and "
